@@ -16,6 +16,7 @@ from __future__ import annotations
 
 import ast
 from fractions import Fraction
+from types import SimpleNamespace
 
 from .alg import MQ, Poly, Rat, Lin, AlgError, to_q, Q
 from .xarray import XArray, XArrayError, einsum as x_einsum
@@ -749,6 +750,10 @@ class _Frame:
             if r is not NotImplemented:
                 return r
         if obj is NP:
+            if attr == "newaxis":
+                return None
+            if attr == "pi":
+                raise self.bad("np.pi is outside the exact domain", n)
             return _NpAttr(attr)
         if isinstance(obj, _NpAttr):
             return _NpAttr(obj.path + "." + attr)
@@ -797,6 +802,9 @@ class _Frame:
             return Opaque(f"{obj.tag}.{attr}")
         if isinstance(obj, Sink):
             return obj
+        if isinstance(obj, SimpleNamespace):
+            if hasattr(obj, attr):
+                return getattr(obj, attr)
         raise self.bad(f"attribute {attr} of {type(obj).__name__}", n)
 
     def obj_attr(self, obj: XObj, attr, n):
@@ -1158,7 +1166,27 @@ _NP_FUNCS = {
     "outer": _np_outer,
     "stack": _np_stack,
     "float64": lambda x: exact(x),
+    "swapaxes": lambda a, i, j: _np_swapaxes(a, i, j),
+    "shape": lambda a: XArray.from_nested(a).shape if not _is_num(a) else (),
+    "ndim": lambda a: XArray.from_nested(a).ndim if not _is_num(a) else 0,
+    "size": lambda a: XArray.from_nested(a).size if not _is_num(a) else 1,
+    "ravel": lambda a: XArray.from_nested(a).ravel(),
+    "where": lambda *a: _np_where(*a),
 }
+
+
+def _np_swapaxes(a, i, j):
+    a = XArray.from_nested(a)
+    ax = list(range(a.ndim))
+    i %= a.ndim
+    j %= a.ndim
+    ax[i], ax[j] = ax[j], ax[i]
+    return a.transpose(*ax)
+
+
+def _np_where(*a):
+    raise XArrayError("np.where is data dependent: outside the table grammar")
+
 
 _NP_CONSTS = {}
 
@@ -1186,6 +1214,9 @@ def _py_isinstance(obj, cls):
                 return True
             if isinstance(obj, XObj) and c in obj.cls.mro:
                 return True
+        elif isinstance(c, _NpAttr):
+            if c.path == "ndarray" and isinstance(obj, XArray):
+                return True
         elif c is str:
             if isinstance(obj, str) or (isinstance(obj, EnumVal) and isinstance(obj.value, str)):
                 return True
@@ -1208,8 +1239,8 @@ _PY_BUILTINS = {
     "range": _py_range,
     "sum": _py_sum,
     "isinstance": _py_isinstance,
-    "int": lambda x=0: int(x),
-    "float": lambda x=0: exact(x) if not isinstance(x, int) else Q(x),
+    "int": int,
+    "float": float,
     "str": str,
     "bool": bool,
     "list": lambda x=(): list(x),
